@@ -7,6 +7,7 @@ import (
 	"io"
 	"math/rand"
 	"net"
+	"path"
 	"reflect"
 	"strings"
 	"sync"
@@ -797,8 +798,55 @@ func TestGlobMatch(t *testing.T) {
 	if !matchKey([]byte("*"), "") {
 		t.Error(`matchKey("*", "") = false`)
 	}
-	// pathological pattern must terminate quickly enough
-	globMatch([]byte(strings.Repeat("a*", 12)+"b"), []byte(strings.Repeat("a", 40)))
+	// pathological pattern (CVE-2022-36021) must terminate quickly
+	start := time.Now()
+	if globMatch([]byte(strings.Repeat("a*", 30)+"b"), []byte(strings.Repeat("a", 200))) {
+		t.Error("pathological pattern matched")
+	}
+	if d := time.Since(start); d > 2*time.Second {
+		t.Errorf("pathological pattern took %v", d)
+	}
+}
+
+// TestGlobMatchDifferential compares the matcher with the independent
+// implementation in package path on random well-formed patterns (path.Match
+// rejects malformed ones, which are skipped; it treats '/' specially, which is
+// not in the alphabet; and unlike redis it matches "*" against "", so subjects
+// are non-empty).
+func TestGlobMatchDifferential(t *testing.T) {
+	r := rand.New(rand.NewSource(42))
+	const palpha, salpha = "ab*?[]^-\\c", "abc-^]*?[\\"
+	compared := 0
+	for i := 0; i < 300000; i++ {
+		pat := make([]byte, r.Intn(8))
+		for j := range pat {
+			pat[j] = palpha[r.Intn(len(palpha))]
+		}
+		sub := make([]byte, 1+r.Intn(5))
+		for j := range sub {
+			sub[j] = salpha[r.Intn(len(salpha))]
+		}
+		want, err := path.Match(string(pat), string(sub))
+		if err != nil {
+			continue
+		}
+		reversed := false // redis swaps the bounds of a reversed range like [z-a], path.Match does not
+		for j := 1; j+1 < len(pat); j++ {
+			if pat[j] == '-' && pat[j-1] > pat[j+1] {
+				reversed = true
+			}
+		}
+		if reversed {
+			continue
+		}
+		compared++
+		if got := globMatch(pat, sub); got != want {
+			t.Fatalf("globMatch(%q, %q) = %v, path.Match = %v", pat, sub, got, want)
+		}
+	}
+	if compared < 50000 {
+		t.Fatalf("only %d comparable cases", compared)
+	}
 }
 
 // ---- journal ----
